@@ -84,7 +84,17 @@ class VerifyMixin(object):
             self.notes.append("%s: only the named sub-expression is under contract, the rest of the body is not executed" % c.qualname)
             outs = []
         else:
-            outs = self.exec_block(fn.body, st.copy() if c.self_compose else st)
+            body = fn.body
+            if c.from_stmt is not None:
+                pat = ast.parse(c.from_stmt).body[0]
+                from .engine import _match
+                idx = [i for i, s0 in enumerate(fn.body) if _match(pat, s0)]
+                if len(idx) != 1:
+                    raise OutsideSubset("from_stmt %r matches %d top-level statements of %s" % (c.from_stmt, len(idx), c.qualname))
+                body = fn.body[idx[0]:]
+                self.notes.append("%s: executed from line %d on; the statements before it are not under contract (locals arbitrary at that point)"
+                                  % (c.qualname, body[0].lineno))
+            outs = self.exec_block(body, st.copy() if c.self_compose else st)
         if c.self_compose:
             self.self_composition(c, fn, st, outs, mark)
         # nested raise outcomes are already Outcome('raise')
